@@ -385,6 +385,13 @@ func modeRoute(c *Ctx) {
 		}
 	}
 	ml := append(sortedKeys(methods), undeclared)
+	// HEAD is no alias of GET and method names are case-sensitive: both are
+	// ordinary undeclared methods unless the path declares them
+	for _, m := range []string{"HEAD", "get"} {
+		if !methods[m] && m != undeclared {
+			ml = append(ml, m)
+		}
+	}
 	if hasCORS && !methods["OPTIONS"] {
 		ml = append(ml, "OPTIONS")
 	}
@@ -470,6 +477,58 @@ func modeRoute(c *Ctx) {
 			}
 		}
 		k = origK
+		c.SetField(api, "Middlewares", mws)
+	}
+	// a partly implemented API: operations whose handler field is still nil are
+	// operations all the same, so a request for one enters the middlewares with
+	// its template visible (here a gate that answers 403 itself, as an
+	// authorisation layer would; the nil handler is never reached)
+	{
+		rr := c.refRouter()
+		gateHits, gateTemplate := 0, ""
+		gate := func(next http.Handler) http.Handler {
+			return http.HandlerFunc(func(w http.ResponseWriter, r *http.Request) {
+				gateHits++
+				if fn, has := c.Reg.Funcs["SchemaPath"]; has {
+					outs := reflect.ValueOf(fn).Call([]reflect.Value{reflect.ValueOf(r)})
+					gateTemplate = outs[0].String()
+				}
+				w.WriteHeader(403)
+			})
+		}
+		c.SetField(api, "Middlewares", []func(http.Handler) http.Handler{gate})
+		for i, op := range c.Ops {
+			if i%2 != 0 || op.Spec == nil {
+				continue
+			}
+			p := c.Base + c.canonicalPath(op)
+			if tp, _ := rr.Match(op.Method, p); tp != op.Path {
+				continue // the canonical path fits a more literal template
+			}
+			saved := reflect.New(op.HandlerType).Elem()
+			saved.Set(api.Elem().Field(op.FieldIndex))
+			api.Elem().Field(op.FieldIndex).Set(reflect.Zero(op.HandlerType))
+			gateHits, gateTemplate = 0, ""
+			w := newRec()
+			req := NewRequest(op.Method, p, "", nil, nil)
+			c.addAllCredentials(req, "good")
+			var pv any
+			func() {
+				defer func() { pv = recover() }()
+				handler.ServeHTTP(w, req)
+			}()
+			api.Elem().Field(op.FieldIndex).Set(saved)
+			c.Stat("requests", 1)
+			c.Stat("nil_handler_requests", 1)
+			in := fmt.Sprintf("%s %s (handler field %s nil, one gate middleware answering 403)", op.Method, p, op.FieldName)
+			if pv != nil {
+				c.Viol("panic", "serving a request panicked: "+firstLine(fmt.Sprint(pv)), in, nil, nil)
+			} else if gateHits != 1 || w.Status != 403 {
+				c.Viol("trace-shape", "a request for a declared operation whose handler field is nil did not enter the middlewares", in, "gate entered once, 403", fmt.Sprintf("gate hits=%d status=%d", gateHits, w.Status))
+			} else if gateTemplate != op.Path {
+				c.Viol("schema-path", "SchemaPath seen by a middleware is not the matched template", in, op.Path, gateTemplate)
+			}
+		}
 		c.SetField(api, "Middlewares", mws)
 	}
 	// CORS enabled but no handler installed: no pseudo-operations, plain matching
